@@ -1348,6 +1348,17 @@ def _run(scn, ch, log, connector_mod, BaseConn):
         for rid, (phase, ename, fstep) in sorted(failed.items()):
             if phase == "request" and ename in ("TimeoutError", "ServerTimeoutError", "SocketTimeoutError"):
                 continue
+            if phase == "body" and ename in ("TimeoutError", "ServerTimeoutError", "SocketTimeoutError"):
+                # the caller's own timer expiring after the whole message it was given had arrived (read() entered late:
+                # the timer context raises at once) is no failure of the exchange: the connection went back, rightly, when
+                # the message ended
+                mk_ = delivered.get(rid)
+                e_ = sent.get(int(mk_[3])) if mk_ is not None else None
+                if e_ is not None and int(mk_[3]) in msgs and e_["b"] - e_["a"] == msgs[int(mk_[3])]["size"]:
+                    last_ = arrival_step(e_["conn"], e_["b"] - 1)
+                    if last_ is not None and last_ < fstep:
+                        probes["late_read_after_complete_answer"] = probes.get("late_read_after_complete_answer", 0) + 1
+                        continue
             for cid in sorted(conns):
                 rl = [q[0] for q in conns[cid]["requests"]]
                 if rid in rl and rl.index(rid) < len(rl) - 1:
